@@ -1035,8 +1035,138 @@ static void destroy(void *vs, int check)
 	}
 }
 static const struct bfs_cb cb = {fresh, apply, menu, key, destroy, opname};
+
+/* ---------- scale: very many references to one node, very many children ---------- */
+static int in_scale;
+static char scaledesc[128];
+static int sc_destroyed[2048];
+static void sc_deleted(struct json_object *o, void *ud)
+{
+	(void)o;
+	sc_destroyed[(int)(intptr_t)ud]++;
+}
+static void fam_scale(void)
+{
+	in_scale = 1;
+	static const long counts[] = {255, 256, 65535, 65536, 70000, 200000};
+	for (unsigned ci = 0; ci < sizeof counts / sizeof counts[0]; ci++)
+		for (int kind = 0; kind < 3; kind++)
+		{
+			long n = counts[ci];
+			snprintf(scaledesc, sizeof scaledesc, "scale references=%ld kind=%d", n, kind);
+			if (!mc_case_begin())
+				continue;
+			memset(sc_destroyed, 0, sizeof sc_destroyed);
+			struct json_object *x = kind == 0 ? json_object_new_string("shared") : kind == 1 ? json_object_new_array() : json_object_new_object();
+			json_object_set_userdata(x, (void *)(intptr_t)1, sc_deleted);
+			int bad = 0;
+			for (long i = 0; i < n; i++)
+				json_object_get(x);
+			for (long i = 0; i < n && !bad; i++)
+			{
+				int rc = json_object_put(x);
+				if (rc != 0 || sc_destroyed[1])
+				{
+					mc_violation("scale:destroyed-with-references-outstanding", "with %ld extra references taken, release number %ld reported %d (destruction callback ran %d times)", n,
+					             i + 1, rc, sc_destroyed[1]);
+					bad = 1;
+				}
+			}
+			MC_COUNT("calls", 2 * n);
+			if (!bad)
+			{
+				if (json_object_put(x) != 1 || sc_destroyed[1] != 1)
+					mc_violation("scale:last-release", "the last of %ld+1 releases did not destroy the node exactly once", n);
+			}
+			if (bad || vf_live())
+			{
+				if (!bad)
+					mc_violation("leak", "%ld blocks live", vf_live());
+				mc_restart_worker();
+			}
+			mc_nontrivial(mc_hash_str(scaledesc));
+			mc_sample_current();
+		}
+	/* the same node stored many times in one array / many distinct children in one container */
+	static const int widths[] = {100, 300, 1000};
+	for (unsigned wi = 0; wi < 3; wi++)
+		for (int kind = 0; kind < 2; kind++)
+		{
+			int n = widths[wi];
+			snprintf(scaledesc, sizeof scaledesc, "scale children=%d container=%s", n, kind ? "object" : "array");
+			if (!mc_case_begin())
+				continue;
+			memset(sc_destroyed, 0, sizeof sc_destroyed);
+			struct json_object *c = kind ? json_object_new_object() : json_object_new_array();
+			struct json_object *shared = json_object_new_int(7);
+			json_object_set_userdata(shared, (void *)(intptr_t)2000, sc_deleted);
+			for (int i = 0; i < n; i++)
+			{
+				struct json_object *ch = json_object_new_int(i);
+				json_object_set_userdata(ch, (void *)(intptr_t)(i + 1), sc_deleted);
+				char k[16];
+				snprintf(k, sizeof k, "k%d", i);
+				if (kind)
+				{
+					json_object_object_add(c, k, ch);
+					if (i % 3 == 0)
+					{
+						snprintf(k, sizeof k, "s%d", i);
+						json_object_object_add(c, k, json_object_get(shared));
+					}
+				}
+				else
+				{
+					json_object_array_add(c, ch);
+					if (i % 3 == 0)
+						json_object_array_add(c, json_object_get(shared));
+				}
+			}
+			/* remove every other child while holding one of them */
+			struct json_object *held = kind ? json_object_object_get(c, "k1") : json_object_array_get_idx(c, 2);
+			json_object_get(held);
+			if (kind)
+				for (int i = 0; i < n; i += 2)
+				{
+					char k[16];
+					snprintf(k, sizeof k, "k%d", i);
+					json_object_object_del(c, k);
+				}
+			else
+				json_object_array_del_idx(c, 0, (size_t)n / 2);
+			MC_COUNT("calls", 3 * n);
+			int rc = json_object_put(c);
+			if (rc != 1)
+				mc_violation("scale:container-not-freed", "put(container) returned %d", rc);
+			if (sc_destroyed[2000])
+				mc_violation("scale:destroyed-with-references-outstanding", "the shared child was destroyed with the container although the caller still holds a reference");
+			if (json_object_get_int(shared) != 7 || json_object_put(shared) != 1 || sc_destroyed[2000] != 1)
+				mc_violation("scale:last-release", "the shared child was not destroyed exactly at its last release");
+			if (json_object_put(held) != 1)
+				mc_violation("scale:last-release", "the held child was not freed by its last release");
+			for (int i = 1; i <= n; i++)
+				if (sc_destroyed[i] != 1)
+				{
+					mc_violation("scale:child-lifetime", "child #%d of %d destroyed %d times", i, n, sc_destroyed[i]);
+					break;
+				}
+			if (vf_live())
+			{
+				mc_violation("leak", "%ld blocks live", vf_live());
+				mc_restart_worker();
+			}
+			mc_nontrivial(mc_hash_str(scaledesc));
+			mc_sample_current();
+		}
+	in_scale = 0;
+}
 static void describe(sb_t *o)
 {
+	if (in_scale)
+	{
+		sb_puts(o, scaledesc);
+		return;
+	}
 	bfs_describe(&cb, o);
 }
 static void enumerate(void)
@@ -1046,9 +1176,15 @@ static void enumerate(void)
 	MC_COUNT("states", st.states);
 	MC_COUNT("transitions", st.transitions);
 	MC_MAX("depth_completed", st.max_depth_done);
+	fam_scale();
 }
 static int replay(const char *desc)
 {
+	if (strstr(desc, "scale "))
+	{
+		fam_scale();
+		return (int)mc_violations();
+	}
 	bfs_replay(&cb, desc);
 	return (int)mc_violations();
 }
